@@ -1040,6 +1040,65 @@ def make_machine(world_cls, checks, cfg_strategy, rule_weights=None):
                    if d(st.integers(0, 5)) else None for r in range(self.nr)]
             self._do({"_": "inplay", "dt": 1000, "bet_delay": d(st.sampled_from([0, 1, 5])), "status": "OPEN", "bump": True, "bsp": bsp})
 
+        @precondition(lambda self: rw.get("overlap_reset", 0) > 0)
+        @rule(data=st.data())
+        def overlap_reset(self, data):
+            """directed (C10): two overlapping trades with a reset cool-down on one runner - the first completes at
+            once (a taker), the second rests; a third trade is requested inside the cool-down of the first"""
+            d = data.draw
+            si = d(st.integers(0, self.ns - 1))
+            r = d(st.integers(0, self.nr - 1))
+            rs = d(st.sampled_from([5, 30]))
+            mid = self.mids[r]
+            self._do({"_": "book", "dt": 1000, "rc": [{"r": r, "atb": [[mid - 1, 50.0]], "atl": [[mid + 1, 50.0]]}]})
+            self.books[r] = ([[mid - 1, 50.0]], [[mid + 1, 50.0]])
+            self._do({"_": "req", "op": "place", "si": si, "r": r, "side": "BACK", "type": "LIMIT", "tick": max(0, mid - 3), "size": 2.0,
+                      "pers": "LAPSE", "trade": "new", "reset_seconds": rs})
+            self._do({"_": "req", "op": "place", "si": si, "r": r, "side": "BACK", "type": "LIMIT", "tick": min(self.nt - 1, mid + 6), "size": 2.0,
+                      "pers": "PERSIST", "trade": "new", "reset_seconds": rs})
+            self._do({"_": "book", "dt": 1000, "rc": []})
+            self._do({"_": "req", "op": "place", "si": si, "r": r, "side": d(st.sampled_from(["BACK", "LAY"])), "type": "LIMIT", "tick": min(self.nt - 1, mid + 8),
+                      "size": 2.0, "pers": "LAPSE", "trade": "new", "reset_seconds": rs})
+            self._do({"_": "book", "dt": d(st.sampled_from([200, 1000])), "rc": []})
+
+        @precondition(lambda self: rw.get("squeeze", 0) > 0)
+        @rule(data=st.data())
+        def moc_lay_partial_cancel(self, data):
+            """directed (C01): a LAY limit order with MARKET_ON_CLOSE persistence rests, is partly cancelled, the freed
+            headroom is used by a second lay, then the starting price is reconciled at the order's price"""
+            if not self.w or not self.w.spec.get("bsp_market") or not self.w.spec.get("persistence_enabled", True):
+                return
+            defn = self.w.s.renderers[0].defn
+            if defn["status"] != "OPEN" or defn["inPlay"]:
+                return
+            d = data.draw
+            si = d(st.integers(0, self.ns - 1))
+            if self.w.lab.strategies[si].my_orders:
+                return  # headroom already used: the shape needs the full limit
+            scfg = self.w.cfg["strategies"][si]
+            caps = [x for x in (scfg.get("max_selection_exposure"), scfg.get("max_market_exposure")) if x]
+            lim = min(caps) if caps else 30
+            if lim < 23:
+                return  # a remainder risking less than the minimum starting-price liability lapses instead of converting
+            if scfg.get("max_order_exposure") is not None and scfg["max_order_exposure"] < 0.9 * lim:
+                return  # the first order would already be refused by the per-order limit
+            r = d(st.integers(0, self.nr - 1))
+            tick = max(2, self.mids[r] - 20)
+            price = self.w.prices[tick]
+            size = max(0.02, round(lim * 0.9 / max(0.01, price - 1), 2))
+            self._do({"_": "req", "op": "place", "si": si, "r": r, "side": "LAY", "type": "LIMIT", "tick": tick, "size": size,
+                      "pers": "MARKET_ON_CLOSE", "trade": "new"})
+            self._do({"_": "book", "dt": 1000, "rc": []})
+            self._do({"_": "req", "op": "cancel", "red": 0.5, "si": si, "o": -1, "pool": "any"})
+            self._do({"_": "book", "dt": 1000, "rc": []})
+            self._do({"_": "req", "op": "place", "si": si, "r": r, "side": "LAY", "type": "LIMIT", "tick": tick, "size": max(0.01, round(size * 0.55, 2)),
+                      "pers": "MARKET_ON_CLOSE", "trade": "new"})
+            self._do({"_": "book", "dt": 1000, "rc": []})
+            bsp = [round(self.w.prices[max(0, min(self.nt - 1, self.mids[x]))], 2) for x in range(self.nr)]
+            bsp[r] = price
+            self._do({"_": "inplay", "dt": 1000, "bet_delay": 1, "status": "OPEN", "bump": True, "bsp": bsp})
+            self._do({"_": "book", "dt": 1000, "rc": []})
+
         @precondition(lambda self: rw["inplay"] > 0 and rw["place"] > 0)
         @rule(data=st.data())
         def late_sp(self, data):
